@@ -288,3 +288,73 @@ func (e *Engine) lockedGetter(role string, lr *lockResult, g *ssa.Function) bool
 	}
 	return true
 }
+
+// walkLocal visits every instruction of root and of the functions of the same role it calls statically (to the given
+// depth), with the chain of call sites leading there.
+func (e *Engine) walkLocal(role string, root *ssa.Function, maxDepth int, visit func(in ssa.Instruction, ctx []callCtx)) {
+	var walk func(fn *ssa.Function, ctx []callCtx, depth int)
+	walk = func(fn *ssa.Function, ctx []callCtx, depth int) {
+		instrs(fn, func(in ssa.Instruction) {
+			visit(in, ctx)
+			c, ok := in.(ssa.CallInstruction)
+			if !ok || depth >= maxDepth {
+				return
+			}
+			g := c.Common().StaticCallee()
+			if g == nil || g.Blocks == nil || e.fnRole(g) != role || g == root {
+				return
+			}
+			for _, cc := range ctx {
+				if cc.callee == g {
+					return
+				}
+			}
+			walk(g, append(append([]callCtx{}, ctx...), callCtx{c, g}), depth+1)
+		})
+	}
+	walk(root, nil, 0)
+}
+
+// fieldPathOf: v (resolved through ctx when it is a parameter) is a load of a nested field selection x.f.g – returns "f.g".
+func fieldPathOf(v ssa.Value, ctx []callCtx) string {
+	v, _ = resolveParam(v, ctx)
+	v = strip(v)
+	var names []string
+	switch x := v.(type) {
+	case *ssa.UnOp:
+		if x.Op != token.MUL {
+			return ""
+		}
+		a := x.X
+		for {
+			fa, ok := a.(*ssa.FieldAddr)
+			if !ok {
+				break
+			}
+			names = append([]string{fieldOf(fa).Name()}, names...)
+			a = fa.X
+		}
+	case *ssa.Field:
+		var cur ssa.Value = x
+		for {
+			fl, ok := cur.(*ssa.Field)
+			if !ok {
+				break
+			}
+			names = append([]string{fieldOf(fl).Name()}, names...)
+			cur = fl.X
+		}
+		if u, ok := cur.(*ssa.UnOp); ok && u.Op == token.MUL {
+			a := u.X
+			for {
+				fa, ok := a.(*ssa.FieldAddr)
+				if !ok {
+					break
+				}
+				names = append([]string{fieldOf(fa).Name()}, names...)
+				a = fa.X
+			}
+		}
+	}
+	return strings.Join(names, ".")
+}
